@@ -92,6 +92,8 @@ def contract_groups(tier):
     # the rule cache as shipped (run_cfg above starts from an empty cache) and the accepted range of n ("every derivative order the
     # library accepts": multicomplex stops at n = 2 -- beyond that it must refuse, not return numbers)
     out.append(('contract:rule-cache-at-import', ('dep', 'C06', 'run_cache0', (), {})))
+    out.append(('contract:rule-cache', ('dep', 'C09', 'run_ci', (), {})))
+    out.append(('contract:generator-defaults', ('dep', 'C10', 'run_scale', (tier,), {})))
     out.append(('contract:accepted-orders[multicomplex]', ('dep', 'C11', 'run_mcn', (), {})))
     # "every configuration the library accepts": a step sequence shorter than the rule must be refused, not turned into numbers
     out.append(('contract:accepted-step-counts', ('dep', 'C11', 'run_steps', (), {})))
@@ -336,7 +338,7 @@ def run_group(args):
     return run_zero()
 
 
-CONTRACT_ORIGIN = [('contract:rule-cache-at-import/', 'C06', 'cache-base-case/'), ('contract:accepted-orders[multicomplex]/', 'C11', 'multicomplex-n/'), ('contract:accepted-step-counts/', 'C11', 'steps/'), ('contract:generator[', 'C10', 'seq['), ('contract:rule[', 'C06', 'cfg['), ('contract:best-estimate[', 'C08', 'best-estimate['), ('contract:elementwise[', 'C08', 'deriv['),
+CONTRACT_ORIGIN = [('contract:rule-cache/', 'C09', 'cache-invariant/'), ('contract:generator-defaults/', 'C10', 'scale/'), ('contract:rule-cache-at-import/', 'C06', 'cache-base-case/'), ('contract:accepted-orders[multicomplex]/', 'C11', 'multicomplex-n/'), ('contract:accepted-step-counts/', 'C11', 'steps/'), ('contract:generator[', 'C10', 'seq['), ('contract:rule[', 'C06', 'cfg['), ('contract:best-estimate[', 'C08', 'best-estimate['), ('contract:elementwise[', 'C08', 'deriv['),
                    ('contract:bicomplex[', 'C12', None)]
 
 
